@@ -7,13 +7,13 @@ import numpy as np
 from . import common
 
 PROP = "C03"
-MODULES = ["PdsVerif.Props.SiFrameTie", "PdsVerif.Props.SiTie", "PdsVerif.Props.C03"]
+MODULES = ["PdsVerif.Props.SiFrameTie", "PdsVerif.Props.SiTie", "PdsVerif.Props.DftSizeTie", "PdsVerif.Props.C03"]
 MODEL_MODULES = ["PdsVerif.Model.Si"]
 REQUIRED = ["PdsVerif.C03." + n for n in [
     "circConv_eq_idft_dft_mul", "overlap_save_valid", "overlap_save_lastK", "accumulate_spec", "si_full_count", "si_full_spec", "si_spec_coef",
     "si_energy", "si_dtype", "si_dtype_nonfloat", "si_full_spec_gaussian", "si_stream_eq_full", "si_stream_eq_spec",
     "si_stream_chunk", "si_stream_emitted_le",
-]] + ["PdsVerif.SiFrameTie.si_frame_spec", "PdsVerif.SiFrameTie.si_frame_ge_log_floor"] + ["PdsVerif.SiTie." + n for n in ["reset_x_rem_eq", "reset_y_rem_eq", "reset_skip_eq", "reset_started_eq", "reset_zeroes_eq", "valid_eq", "num_raw_eq", "num_frames_eq", "num_processed_eq", "num_dfts_eq", "x_rem_after_eq", "chunkCore_bookkeeping", "fin_buf_len_eq", "fin_num_frames_eq", "fin_pad_right_eq", "finalize_eq_gen"]]
+]] + ["PdsVerif.SiFrameTie.si_frame_spec", "PdsVerif.SiFrameTie.si_frame_ge_log_floor"] + ["PdsVerif.SiTie." + n for n in ["reset_x_rem_eq", "reset_y_rem_eq", "reset_skip_eq", "reset_started_eq", "reset_zeroes_eq", "valid_eq", "num_raw_eq", "num_frames_eq", "num_processed_eq", "num_dfts_eq", "x_rem_after_eq", "chunkCore_bookkeeping", "fin_buf_len_eq", "fin_num_frames_eq", "fin_pad_right_eq", "finalize_eq_gen"]] + ["PdsVerif.DftSizeTie.si_dft_size_spec", "PdsVerif.DftSizeTie.si_dft_size_ge", "PdsVerif.DftSizeTie.pow2_clog_least"]
 
 
 def translate(repo):
@@ -23,6 +23,8 @@ def translate(repo):
     files = dict(framecoeff.generate_si(repo))
     # integer bookkeeping (_compute_preamble reset, compute_chunk planning, finalize) -> Generated/SiConsts.lean (Props/SiTie.lean)
     files.update(siconsts.generate(repo))
+    from .translate import dftsize
+    files.update(dftsize.generate(repo))   # DFT size rule -> Generated/DftSize.lean (Props/DftSizeTie.lean)
     return files
 
 RULE = (
